@@ -654,6 +654,23 @@ func (f *frame) typeAssert(st *State, x *ssa.TypeAssert) {
 		}
 		return
 	}
+	if info, has := st.ghost["xmltok:"+iv.ID].(VTuple); has && x.CommaOk && x.AssertedType.String() == "encoding/xml.ProcInst" {
+		// token returned by the modelled (*xml.Decoder).RawToken: a ProcInst when the document has a declaration
+		ok := ex.decls.fresh("taok", SBool)
+		st.assume(tImp(info.E[0].(VBool).T, ok))
+		val := ex.freshVal(st, "ta", x.AssertedType, true)
+		if vs, isStruct := val.(VStruct); isStruct {
+			u := x.AssertedType.Underlying().(*types.Struct)
+			for i := 0; i < u.NumFields(); i++ {
+				if u.Field(i).Name() == "Inst" {
+					vs.F[i] = info.E[1]
+				}
+			}
+			val = vs
+		}
+		st.regs[x] = VTuple{[]Val{val, VBool{ok}}}
+		return
+	}
 	if x.CommaOk {
 		ok := ex.decls.fresh("taok", SBool)
 		st.regs[x] = VTuple{[]Val{ex.freshVal(st, "ta", x.AssertedType, true), VBool{ok}}}
